@@ -71,6 +71,8 @@ type Node struct {
 	FailTag  string // if set, only the run with this tag fails
 	// FailInState: a panicking node panics while it holds the state (inside ProcessState)
 	FailInState bool
+	// FailEOF: the error item of a mid-stream failure wraps io.EOF
+	FailEOF bool
 	// interrupts
 	RerunN int // number of attempts that answer InterruptAndRerun
 	// Detach: the body does some inner work under a callback context of its own without
@@ -109,6 +111,7 @@ type Plan struct {
 	Branches            []*Branch
 	State               bool
 	MaxSteps            int               // 0: default
+	RuntimeMax          int               // top level: step limit given with the call (0: none)
 	Static              map[string]string // workflow static values: node -> value
 	IntBefore, IntAfter []string
 	Depth               int
@@ -837,6 +840,9 @@ func (p *Plan) Render() string {
 			fmt.Fprintf(&sb, " FAIL@%d/%d", n.FailAt, n.FailKind)
 			if n.FailInState {
 				sb.WriteString("/instate")
+			}
+			if n.FailEOF {
+				sb.WriteString("/eof")
 			}
 		}
 		if n.RerunN > 0 {
